@@ -10,6 +10,7 @@ class Escape(BaseException):
 
 
 _decide = [None]     # installed by sched
+_pick = [None]       # installed by sched: a feasible integer value of a term on the current path
 
 
 def lift(x):
@@ -194,6 +195,8 @@ class Sym:
     def __index__(self):
         if self.e.op == 'c' and self.e.sort == 'I':
             return int(self.e.args[0])
+        if self.e.sort in ('I', 'B') and _pick[0] is not None:
+            return enumerate_int(self)
         raise Escape('symbolic value used as an index')
 
     def __round__(self, n=None):
@@ -302,8 +305,27 @@ def sym_float(x=0.0):
     return float(x)
 
 
+def enumerate_int(s, cap=48):
+    """concrete value of a symbolic integer that has to cross a C boundary: every feasible value gets its own path
+    (fork on  s == v  for a value v the solver proposes), so nothing is sampled; more than `cap` values is an Escape"""
+    e = s.e
+    if e.sort == 'B':
+        e = X.ite(e, X.iconst(1), X.iconst(0))
+    if e.op == 'c':
+        return int(e.args[0])
+    for _ in range(cap):
+        v = _pick[0](e)
+        if v is None:
+            raise Escape('no value could be proposed for a symbolic index')
+        if bool(Sym(X.eq(e, X.iconst(v)))):
+            return v
+    raise Escape('a symbolic index takes more than %d values' % cap)
+
+
 def sym_int(x=0, *a):
     if isinstance(x, Sym):
+        if x.e.sort == 'B':
+            return Sym(X.ite(x.e, X.iconst(1), X.iconst(0)))
         return Sym(X.trunc(_num(x.e)))
     if hasattr(x, '__symint__'):
         return x.__symint__(*a)
